@@ -14,7 +14,7 @@ RULE = (
     "integer-dtype ndarray (whole numbers) on one side and fractional values on the other; operands of different "
     "lengths (incl. length 0 or 1 against n) must raise for every combination; Array.FromScalars(scalars)[i] is "
     "scalars[i] re-expressed in the array's unit (db float conversion, 1e-12*S) with mixed units/categories, also "
-    "with unit=/category= given; Array.GetValues(unit)[i] == Scalar(a_i).GetValue(unit) for every container kind; where the Scalar conversion is not a number (a unit of another quantity type is rejected, the Unknown quantity returns the amount unchanged) every container kind does the same. "
+    "with unit=/category= given; Array.GetValues(unit)[i] == Scalar(a_i).GetValue(unit) for every container kind; where the Scalar conversion is not a number (a unit of another quantity type is rejected, the Unknown quantity returns the amount unchanged) every container kind does the same; a plain number as the other operand (either side, + - * / //) gives element by element what the Scalars give; all of it also on the simple length/time filler whose units are formula strings. "
     "Non-trivial = length >= 2 and (containers differ or units differ); key = (containers, op, length, quantities)."
 )
 ASSUMPTIONS = [
@@ -29,7 +29,10 @@ OPS = ["+", "-", "*", "/", "//"]
 
 def plan(tier, seed):
     n = 6 if tier == "quick" else 16
-    return [{"tier": tier, "seed": seed, "n": 700 if tier == "quick" else 12000} for _ in range(n)]
+    specs = [{"tier": tier, "seed": seed, "n": 700 if tier == "quick" else 12000} for _ in range(n)]
+    # the same checks on the library's simple length/time filler, whose units are given by formula strings
+    specs.append({"tier": tier, "seed": seed, "n": 300 if tier == "quick" else 4000, "db": "simple"})
+    return specs
 
 
 def _apply(op, a, b):
@@ -255,6 +258,29 @@ class Checker:
             ctx.nontrivial(("get_values", u, v, len(vals)))
 
 
+    # -- a plain number as the other operand: element by element what the Scalars give, in every container ------
+    def check_number_operand(self, case):
+        """case: number=True, q ({"d":...}), values, k, op, side ('left' | 'right')"""
+        from barril.units import Array, Scalar
+
+        ctx = self.ctx
+        q = _q(case["q"])
+        vals, k, op, left = list(case["values"]), case["k"], case["op"], case["side"] == "left"
+        if op in ("/", "//") and (k == 0 or (left and any(v == 0 for v in vals))):
+            return
+        ref = [(_apply(op, k, Scalar.CreateWithQuantity(q, x)) if left else _apply(op, Scalar.CreateWithQuantity(q, x), k)) for x in vals]
+        for kind in KINDS:
+            A = Array.CreateWithQuantity(q, gen.as_container(kind, vals))
+            ctx.ev()
+            R = _apply(op, k, A) if left else _apply(op, A, k)
+            got = [float(t) for t in R.GetValues()]
+            want = [float(r.GetValue()) for r in ref]
+            if len(got) != len(want) or any(not core.close(g, w, abs(w) + abs(float(k)), 1e-12) for g, w in zip(got, want)) or (ref and R.GetQuantity() != ref[0].GetQuantity()):
+                ctx.fail("array_with_number_differs_from_scalars:%s:%s" % (op, "number_left" if left else "number_right"), dict(case, kind=kind), "%s with Array(%s) %r and k=%r gives %r, the Scalars give %r" % (("k %s x" if left else "x %s k") % op, kind, A, k, R, ref))
+        ctx.cls("number_operand_checked")
+        if vals:
+            ctx.nontrivial(("number", op, case["side"], len(vals), repr(sorted(case["q"]["d"].items()))))
+
     # -- conversions whose outcome is not a number: the container kind must not matter either ------------------
     def check_conversion_outcome(self, case):
         """case: outcome=True, source ('simple' | 'unknown'), u, c, v, values.  The Scalar route decides what the
@@ -264,6 +290,8 @@ class Checker:
 
         ctx = self.ctx
         src, u, c, v, vals = case["source"], case["u"], case["c"], case["v"], list(case["values"])
+        if src == "unknown" and not self.db.IsValidCategory("Unknown"):
+            src = "simple"  # (a database filled without the Unknown quantity)
         q = ObtainQuantity("<unknown>", "Unknown") if src == "unknown" else ObtainQuantity(u, c)
 
         def outcome(fn):
@@ -295,7 +323,7 @@ def _strategies(ch):
     cats = pool.cats
     all_qts = [qt for qt in sorted(db.quantity_types) if qt in cats and qt != "Unknown" and len(db.quantity_types[qt]) >= 2]
     aff_qts = [qt for qt in all_qts if any(um.offset[u] != 0 for u in um.units(qt))]
-    qt_any = st.one_of(st.sampled_from(pool.fav), st.sampled_from(all_qts), st.sampled_from(aff_qts))
+    qt_any = st.one_of(*[st.sampled_from(x) for x in (pool.fav, all_qts, aff_qts) if x])
 
     def vals(n, nonzero=True):
         return st.lists(gen.moderate_values(1e-2, 1e4), min_size=n, max_size=n)
@@ -382,7 +410,23 @@ def _strategies(ch):
             "values": draw(st.lists(gen.finite_values(1e9, 1e-9), min_size=1, max_size=4)),
         }
 
-    return op_case(), len_case(), fs_case(), gv_case(), outcome_case()
+    @st.composite
+    def number_case(draw):
+        qa, _qt = draw(simple_q())
+        if draw(st.booleans()):
+            shape = draw(pool.shape_strategy(max_factors=2, max_exp=2))
+            da, _ = draw(pool.instance_strategy(shape))
+            qa = dd(da)
+        return {
+            "number": True,
+            "q": qa,
+            "values": draw(st.lists(gen.moderate_values(1e-2, 1e4), min_size=0, max_size=4)),
+            "k": draw(st.one_of(st.sampled_from([2.0, 10.0, -3.0, 0.5, 7]), gen.moderate_values(1e-1, 1e2))),
+            "op": draw(st.sampled_from(OPS)),
+            "side": draw(st.sampled_from(["left", "right"])),
+        }
+
+    return op_case(), len_case(), fs_case(), gv_case(), outcome_case(), number_case()
 
 
 def _fix(case):
@@ -396,10 +440,13 @@ def _fix(case):
 
 
 def run_shard(spec, ctx):
-    db = env.new_db("posc")
+    kind = spec.get("db", "posc")
+    db = env.new_db(kind)
     with env.pushed(db):
         ch = Checker(ctx, db)
-        op_case, len_case, fs_case, gv_case, outcome_case = _strategies(ch)
+        if kind != "posc":
+            ctx.cls("shard_on_%s_database" % kind)
+        op_case, len_case, fs_case, gv_case, outcome_case, number_case = _strategies(ch)
         seed = spec["seed"] * 1000 + spec["shard"]
         n = spec["n"]
 
@@ -407,7 +454,7 @@ def run_shard(spec, ctx):
             def make():
                 @given(strategy)
                 def test(case):
-                    core.guarded(ctx, fn, _fix(case))
+                    core.guarded(ctx, fn, _fix(dict(case, db=kind) if kind != "posc" else case))
 
                 return test
 
@@ -418,14 +465,17 @@ def run_shard(spec, ctx):
         core.hunt(ctx, mk(fs_case, ch.check_from_scalars), seed + 2, max(100, n // 2))
         core.hunt(ctx, mk(gv_case, ch.check_get_values), seed + 3, max(100, n // 2))
         core.hunt(ctx, mk(outcome_case, ch.check_conversion_outcome), seed + 4, max(100, n // 3))
+        core.hunt(ctx, mk(number_case, ch.check_number_operand), seed + 5, max(100, n // 3))
 
 
 def replay(case, ctx):
-    db = env.new_db("posc")
+    db = env.new_db(case.get("db", "posc"))
     with env.pushed(db):
         ch = Checker(ctx, db)
         case = _fix(case)
-        if case.get("outcome"):
+        if case.get("number"):
+            fn = ch.check_number_operand
+        elif case.get("outcome"):
             fn = ch.check_conversion_outcome
         elif "items" in case:
             fn = ch.check_from_scalars
